@@ -274,3 +274,6 @@ func addrBase(a ssa.Value) ssa.Value {
 	}
 	return nil
 }
+
+// CellAliases exposes cellAliases.
+func CellAliases(a ssa.Value) []ssa.Value { return cellAliases(a) }
